@@ -87,12 +87,13 @@ def check(ctx, tree, leaves0, dsl, cfg):  # noqa: C901, PLR0912, PLR0915
             ctx.violation('one_level-of-leaf', keyf('one_level'), case, repr(one))
     else:
         why = e1.spec_vs_desc(one, one_level_desc(d)) if one is not None else 'None'
-        if why or not one.is_one_level() and d.arity >= 0 and why:
+        if why or not one.is_one_level():
             ctx.violation('one_level', keyf('one_level'), case, f'{one!r}: {why}')
         else:
             it = iter(children)
             rebuilt = one.transform(None, lambda leafspec: next(it))
-            if rebuilt != spec or hash(rebuilt) != hash(spec) and rebuilt.namespace == spec.namespace or rebuilt.paths() != spec.paths() or repr(rebuilt) != repr(spec):
+            if (rebuilt != spec or hash(rebuilt) != hash(spec) or rebuilt.paths() != spec.paths()
+                    or rebuilt.accessors() != spec.accessors() or repr(rebuilt) != repr(spec)):
                 ctx.violation('rebuild-transform', keyf('rebuild-transform'), case, f'{rebuilt!r} vs {spec!r}')
             if d.type is U.P:
                 # functools.partial demands a tuple / dict as children: a collection of treespecs
@@ -179,12 +180,11 @@ def check(ctx, tree, leaves0, dsl, cfg):  # noqa: C901, PLR0912, PLR0915
                 continue
             composed_obj = ref_unflatten(d, [gen.build(inner_dsl, U)[0] for _ in range(d.num_leaves)])
             real = optree.tree_structure(composed_obj, **kw)
-            if real != comp or comp != real or comp.paths() != real.paths() or repr(comp) != repr(real).replace(
-                f", namespace={real.namespace!r}", f", namespace={comp.namespace!r}" if comp.namespace else '',
-            ) and comp.namespace == real.namespace:
+            if (real != comp or comp != real or hash(comp) != hash(real) or comp.paths() != real.paths()
+                    or (comp.namespace == real.namespace and repr(comp) != repr(real))):
                 ctx.violation('compose-vs-flatten', keyf('compose-vs-flatten'), case, f'{comp!r} vs {real!r}')
             viat = spec.transform(None, lambda _s, ispec=ispec: ispec)
-            if viat != comp or viat.paths() != comp.paths() or hash(viat) != hash(comp) and viat.namespace == comp.namespace:
+            if viat != comp or viat.paths() != comp.paths() or hash(viat) != hash(comp):
                 ctx.violation('transform-vs-compose', keyf('transform-vs-compose'), case, f'{viat!r} vs {comp!r}')
     # 6. repr
     want_repr = Ref.spec_repr(d, nil, flat.namespace)
